@@ -27,7 +27,8 @@ import (
 var PidPool = map[string]string{
 	"u1": "u1@x.io",
 	"u2": "u2@x.io",
-	"u3": "we;rd,3;;@x.io",
+	// separators the token / pid codecs use, upper case, and longer than any "reasonable" size bound (213 bytes)
+	"u3": "We;rd,3;;" + strings.Repeat("x", 198) + "@x.io",
 	"g1": "g1@x.io",
 	"u2s": "u2-secondary@x.io", // a declared secondary address of u2, not an account
 	// OAuth2 accounts: provider pa/pb, uid x / y
